@@ -478,17 +478,21 @@ def slotsEqv (a b : World) : List Slot → List Slot → Out Bool
     | .ok true => slotsEqv a b ss ts
   | _, _ => .ok false
 
+/-- `Archetypes::eq`, one table: the table of `b` with the same identifier bytes exists and
+compares equal. -/
+def matchIn (b : World) (x : Arch) : Bool :=
+  match lookupH b.foreign x.mask with
+  | some h =>
+    match b.findArch h with
+    | some y => archEqv x y
+    | none => false
+  | none => false
+
 /-- `World::eq`. -/
 def eqWorld (a b : World) : Out Bool :=
   if a.len ≠ b.len then .ok false
   else if a.archs.length ≠ b.archs.length then .ok false
-  else if !(a.archs.all (fun x =>
-      match lookupH b.foreign x.mask with
-      | some h =>
-        match b.findArch h with
-        | some y => archEqv x y
-        | none => false
-      | none => false)) then .ok false
+  else if !(a.archs.all (matchIn b)) then .ok false
   else
     match slotsEqv a b a.alloc.slots b.alloc.slots with
     | .ub e => .ub e
